@@ -276,6 +276,13 @@ class _LoopBase:
             sp = self.spec.locals.get(name)
             if sp is None and name == getattr(self, "acc_name", None):
                 sp = self.spec.locals.get("@acc")
+            if sp is None:
+                # by role: "@<ClassName>" describes every loop-carried local whose value is of that class (whatever the
+                # local is called)
+                for k in type(value).__mro__:
+                    if "@" + k.__name__ in self.spec.locals:
+                        sp = self.spec.locals["@" + k.__name__]
+                        break
         if isinstance(value, SymObj) and not value._frozen:
             fields = None
             if self.spec is not None and name in self.spec.modifies:
